@@ -926,15 +926,27 @@ def _final_elems(ex, arr, pth):
 # ---- string constants: the same literal under both back ends --------------------------------------------------
 # Literals are built from tokens, so every escape sequence is well formed by construction (lexer.rs,
 # string_has_valid_escape: \t \v \0 \b \f \n \r \" and \\).
-STR_TOKENS = ["a", "1", " ", "`", "$", "{", "}", "'", "\\t", "\\n", "\\r", "\\0", "\\b", "\\f", "\\v", '\\"', "\\\\", "\t", "\u00e9"]
+STR_TOKENS = ["a", "1", " ", "`", "$", "{", "}", "'", "t", "n", "r", "0", "\\t", "\\n", "\\r", "\\0", "\\b", "\\f", "\\v", '\\"', "\\\\", "\t", "\u00e9"]
 STR_NODE = r"""
-const items = JSON.parse(require('fs').readFileSync(process.argv[2], 'utf8'));
-const out = [];
-for (const src of items) {
-  try { const v = new Function('return (' + src + ');')(); out.push({ok: typeof v === 'string', bytes: Array.from(Buffer.from(String(v), 'utf8'))}); }
-  catch (e) { out.push({ok: false, error: String(e).slice(0, 120)}); }
+const fs = require('fs');
+const job = JSON.parse(fs.readFileSync(process.argv[2], 'utf8'));
+// the string decoder of the emitted loader, run on a stand-in for the instance's exports (node 20 cannot
+// instantiate a WebAssembly-GC module): __strLen / __strGet as libsam.wat defines them over the segment's bytes
+let decode = null;
+const m = /function gcArrayToString\(arr\) \{[\s\S]*?\n  \}/.exec(job.loader);
+if (m) {
+  const get = job.signed ? ((a, i) => (a[i] << 24) >> 24) : ((a, i) => a[i]);
+  decode = new Function('instance', m[0] + '; return gcArrayToString;')({exports: {__strLen: a => a.length, __strGet: get}});
 }
-console.log(JSON.stringify(out));
+const out = [];
+for (const it of job.items) {
+  const row = {};
+  try { const v = new Function('return (' + it.ts + ');')(); row.ok = typeof v === 'string'; row.bytes = Array.from(Buffer.from(String(v), 'utf8')); row.text = String(v); }
+  catch (e) { row.ok = false; row.error = String(e).slice(0, 120); }
+  if (decode) { try { row.printed = decode(it.wasm); } catch (e) { row.printed_error = String(e).slice(0, 120); } }
+  out.push(row);
+}
+console.log(JSON.stringify({decoder: !!decode, rows: out}));
 """
 
 
@@ -961,8 +973,9 @@ def run_string_constants(res, tier, sc, drv):
     """C04, string constants: every literal made of <= 2 (quick) / <= 3 (thorough) tokens - plain characters, the
     characters that are special inside a JavaScript template literal, every escape sequence of the language, a raw tab
     and a non-ASCII character - is compiled by the real compiler; the value JavaScript gives the emitted TypeScript
-    literal (evaluated by node) must be the byte string the WebAssembly module builds from its data segment.
-    This is a gate over concrete literals (exhaustive up to the stated length), not a solver verdict."""
+    literal (evaluated by node) must be the byte string the WebAssembly module builds from its data segment, and the
+    string decoder of the emitted loader (what `Process.println` prints under WebAssembly) must turn those bytes into
+    the same text.  This is a gate over concrete literals (exhaustive up to the stated length), not a solver verdict."""
     import itertools
     import json
     import os
@@ -1017,18 +1030,30 @@ def run_string_constants(res, tier, sc, drv):
         data = _wat_string_bytes(dm.group(1))
         order = sorted(ts_lits)
         items = os.path.join(d, "items.json")
-        json.dump([ts_lits[i] for i in order], open(items, "w"))
+        gm = re.search(r'\(export "__strGet"\)[^\n]*\n\s*\(array\.get(_s|_u)? ', wat_text)
+        loader_path = os.path.join(out, "__samlang_loader__.js")
+        if gm is None or not os.path.exists(loader_path):
+            raise Inconclusive("string constants: the module no longer exports __strGet / ships __samlang_loader__.js in the expected shape")
+        json.dump({"loader": open(loader_path, encoding="utf8").read(), "signed": gm.group(1) == "_s",
+                   "items": [{"ts": ts_lits[i], "wasm": list(data[segs[i][0]:segs[i][0] + segs[i][1]])} for i in order]}, open(items, "w"))
         script = os.path.join(d, "eval.js")
         open(script, "w").write(STR_NODE)
         pr = subprocess.run(["node", script, items], capture_output=True, text=True, timeout=120)
         try:
-            vals = json.loads(pr.stdout.strip().split("\n")[-1])
+            answer = json.loads(pr.stdout.strip().split("\n")[-1])
+            vals = answer["rows"]
         except Exception:
             raise Inconclusive("string constants: node did not evaluate the literals: %s" % (pr.stdout + pr.stderr)[-300:])
+        if not answer.get("decoder"):
+            raise Inconclusive("string constants: gcArrayToString was not found in the emitted loader")
         for i, v in zip(order, vals):
             off, ln = segs[i]
             wasm_bytes = list(data[off:off + ln])
             stats["constants_compared"] += 1
+            if v.get("ok") and v["bytes"] == wasm_bytes and v.get("printed") != v.get("text"):
+                stats["printed_differently"] = stats.get("printed_differently", 0) + 1
+                first.setdefault("printed_differently", {"typescript_literal": ts_lits[i], "typescript_prints": v.get("text"), "wasm_bytes": wasm_bytes,
+                                                         "loader_prints": v.get("printed", v.get("printed_error"))})
             if not v.get("ok"):
                 stats["ts_not_evaluable"] += 1
                 first.setdefault("ts_not_evaluable", {"typescript_literal": ts_lits[i], "node": v.get("error"), "wasm_bytes": wasm_bytes})
@@ -1046,6 +1071,10 @@ def run_string_constants(res, tier, sc, drv):
         w = first["values_differ"]
         res.violation("string constants: %d literal(s) denote different strings under the two back ends, e.g. %s is %s (UTF-8) under TypeScript and %s under WebAssembly"
                       % (stats["values_differ"], w["typescript_literal"], w["typescript_value_utf8"], w["wasm_bytes"]), {"property": "C04", "class": "values_differ", **w})
+    if "printed_differently" in first:
+        w = first["printed_differently"]
+        res.violation("string constants: %d literal(s) hold the same bytes under both back ends but are printed differently: the loader of the WebAssembly module turns %s into %r where TypeScript prints %r"
+                      % (stats["printed_differently"], w["wasm_bytes"], w["loader_prints"], w["typescript_prints"]), {"property": "C04", "class": "printed_differently", **w})
     if stats["constants_compared"] < len(STR_TOKENS):
         res.inconc("string constants: only %d constants were compared" % stats["constants_compared"])
     return {"string_constants": stats}
